@@ -12,23 +12,28 @@ FULL = {
     "classes": ("Points", "Curve"),
     "dkinds": ("fv", "to", "rv"),
     "pgs": ("P", "Q"),
-    "caps": {"groups": 3, "objects": 3, "data_per_object": 3, "entities": 12},
+    "caps": {"groups": 3, "objects": 3, "data_per_object": 3, "entities": 16},
     "ws2": True,
     "move_data": True,
     "copy_data": True,
+    "defer": True,
+    "pg_foreign": True,
+    "retype": True,
 }
+FULL["ops"].append("rm_par_all")
 # structural operations only: deeper histories for the same budget
 STRUCT = dict(FULL, ops=["mk_group", "add_data", "pg_add", "pg_rm", "move", "copy", "rm_ws", "rm_par", "reopen", "gc"],
-              dkinds=("fv",), classes=("Points",), pgs=("P",), caps={"groups": 2, "objects": 2, "data_per_object": 3, "entities": 9},
-              copy_data=False)
+              dkinds=("fv",), classes=("Points",), pgs=("P",), caps={"groups": 3, "objects": 3, "data_per_object": 3, "entities": 14},
+              copy_data=False, pg_foreign=False, retype=False)
 # edits only: assignments interleaved with re-open / GC
 EDIT = dict(FULL, ops=["rename", "flag", "values", "vertices", "meta", "pg_add", "pg_rm", "pg_del", "move", "reopen", "gc"], ws2=False,
-            move_data=False)
+            move_data=False, flags=("allow_delete", "allow_move", "allow_rename", "partially_hidden", "public", "visible"))
 # deletion-centred: builders, both removal entry points, permission flag, follow-ups
-DEL = dict(FULL, ops=["flag", "add_data", "pg_add", "pg_rm", "pg_del", "mk_group", "move", "copy", "rm_ws", "rm_par", "reopen", "gc"],
+DEL = dict(FULL, ops=["flag", "add_data", "pg_add", "pg_rm", "pg_del", "mk_group", "move", "copy", "rm_ws", "rm_par", "rm_par_all", "reopen", "gc"],
            flags=("allow_delete",), dkinds=("fv",), classes=("Points",), caps={"groups": 3, "objects": 3, "data_per_object": 4, "entities": 16},
            copy_data=False)
-DELCORE = dict(DEL, ops=["flag", "pg_rm", "rm_ws", "rm_par", "copy", "reopen", "gc"], copy_targets=("same", "root2"))
+DELCORE = dict(DEL, ops=["flag", "pg_rm", "rm_ws", "rm_par", "rm_par_all", "copy", "reopen", "gc"], copy_targets=("same", "root2"), defer=False,
+               pg_foreign=False, retype=False)
 # identifiers: creations with caller-supplied uids (in use / formerly used), copies, removals
 IDS = dict(FULL, ops=["mk_group", "mk_obj", "add_data", "pg_add", "copy", "rm_ws", "rm_par", "reopen", "gc"], uid_reuse=True,
            dkinds=("fv",), classes=("Points",), pgs=("P",), caps={"groups": 3, "objects": 3, "data_per_object": 3, "entities": 14})
